@@ -141,6 +141,11 @@ func newMemUniverse(rng *RNG, large bool) *memUniverse {
 	add("m1-twice", img, append(append([]byte{}, m1.data...), m1.data...))
 	add("i1-trailing", idx, append(append([]byte{}, i1.data...), []byte(" {}")...))
 	add("m1-trailing-space", img, append(append([]byte{}, m1.data...), []byte(" \n\t")...)) // this one is valid
+	// an artifact in the style of image-spec 1.1: config and a layer are the well-known empty descriptor
+	// (application/vnd.oci.empty.v1+json, the two bytes "{}", blob 4) - a reference like any other (seed C14-12)
+	emptyDesc := descJSON("application/vnd.oci.empty.v1+json", sha256Digest(u.blobs[4]), int64(len(u.blobs[4])))
+	add("artifact-empty-config", img, ocispec.Manifest{MediaType: img, ArtifactType: "application/vnd.example.sbom", Config: emptyDesc, Layers: []ocispec.Descriptor{emptyDesc}})
+	add("artifact-empty-config-only", img, ocispec.Manifest{MediaType: img, ArtifactType: "application/vnd.example.sig", Config: emptyDesc})
 	return u
 }
 
@@ -329,6 +334,23 @@ func memDirected(rng *RNG) []Case {
 				fmt.Sprintf("mem wcommit %s %s %s", tok("a"), tok("@0"), tok(sha256Digest([]byte("hello"+second)))),
 				fmt.Sprintf("mem getblob %s %s", tok("a"), tok(hd)),
 				fmt.Sprintf("mem gettag %s %s", tok("a"), tok("t")),
+			}})
+		}
+		// one upload ID used in two repositories names two uploads (seed C02-12: a registry-wide session table)
+		{
+			a, b := tok("a"), tok("b/c")
+			id := tok("myid")
+			cases = append(cases, Case{Tag: "directed:same-id-two-repos", Lines: []string{fmt.Sprintf("mem init %d", imm),
+				fmt.Sprintf("mem resume %s %s 0", a, id),
+				fmt.Sprintf("mem wwrite %s %s %s", a, id, tok("aaa")),
+				fmt.Sprintf("mem resume %s %s 0", b, id),
+				fmt.Sprintf("mem wwrite %s %s %s", b, id, tok("bb")),
+				fmt.Sprintf("mem wsize %s %s", b, id),
+				fmt.Sprintf("mem wcommit %s %s %s", b, id, tok(sha256Digest([]byte("bb")))),
+				fmt.Sprintf("mem getblob %s %s", b, tok(sha256Digest([]byte("bb")))),
+				fmt.Sprintf("mem getblob %s %s", a, tok(sha256Digest([]byte("bb")))), // index 8: the only line that has to fail
+				fmt.Sprintf("mem wcommit %s %s %s", a, id, tok(sha256Digest([]byte("aaa")))),
+				fmt.Sprintf("mem getblob %s %s", a, tok(sha256Digest([]byte("aaa")))),
 			}})
 		}
 		// manifests whose bytes are a valid document followed by more
@@ -590,6 +612,10 @@ func memOracle(c Case, impl []string, wire bool) []Failure {
 		arg := func(k int) string { s, _ := untok(t[k]); return s }
 		fail := func(class, oracle, exp string) {
 			fs = append(fs, Failure{Class: class, Oracle: oracle, Index: i, Expected: exp, Observed: got})
+		}
+		if c.Tag == "directed:same-id-two-repos" && got != "panic" && strings.HasPrefix(got, "err") != (i == 8) {
+			fail("mem-upload-id-shared-between-repositories", "uploads_belong_to_their_repository",
+				map[bool]string{true: "err (the blob was committed in the other repository)", false: "success: an upload ID names one upload per repository"}[i == 8])
 		}
 		if got == "panic" {
 			fail("mem-panic:"+t[1], "no_panic", "a result")
